@@ -443,7 +443,7 @@ public:
             emplace_back(etl::move(*first));
         }
         auto* writablePosition = begin() + (position - begin());
-        rotate<iterator>(writablePosition, b, end());
+        etl::rotate<iterator>(writablePosition, b, end());
         return writablePosition;
     }
 
@@ -482,7 +482,7 @@ public:
         }
 
         auto* writablePosition = begin() + (position - begin());
-        rotate(writablePosition, b, end());
+        etl::rotate(writablePosition, b, end());
         return writablePosition;
     }
 
@@ -513,7 +513,7 @@ public:
         }
 
         auto* writablePosition = begin() + (position - begin());
-        rotate(writablePosition, b, end());
+        etl::rotate(writablePosition, b, end());
         return writablePosition;
     }
 
@@ -778,8 +778,8 @@ constexpr auto swap(static_vector<T, Capacity>& lhs, static_vector<T, Capacity>&
 template <typename T, size_t Capacity>
 constexpr auto operator==(static_vector<T, Capacity> const& lhs, static_vector<T, Capacity> const& rhs) noexcept -> bool
 {
-    if (size(lhs) == size(rhs)) {
-        return equal(begin(lhs), end(lhs), begin(rhs), end(rhs), equal_to{});
+    if (etl::size(lhs) == etl::size(rhs)) {
+        return etl::equal(etl::begin(lhs), etl::end(lhs), etl::begin(rhs), etl::end(rhs), equal_to{});
     }
 
     return false;
@@ -799,7 +799,7 @@ constexpr auto operator!=(static_vector<T, Capacity> const& lhs, static_vector<T
 template <typename T, size_t Capacity>
 constexpr auto operator<(static_vector<T, Capacity> const& lhs, static_vector<T, Capacity> const& rhs) noexcept -> bool
 {
-    return lexicographical_compare(begin(lhs), end(lhs), begin(rhs), end(rhs));
+    return etl::lexicographical_compare(etl::begin(lhs), etl::end(lhs), etl::begin(rhs), etl::end(rhs));
 }
 
 template <typename T, size_t Capacity>
@@ -828,8 +828,8 @@ constexpr auto operator>=(static_vector<T, Capacity> const& lhs, static_vector<T
 template <typename T, size_t Capacity, typename Predicate>
 constexpr auto erase_if(static_vector<T, Capacity>& c, Predicate pred) -> typename static_vector<T, Capacity>::size_type
 {
-    auto* it = remove_if(c.begin(), c.end(), pred);
-    auto r   = distance(it, c.end());
+    auto* it = etl::remove_if(c.begin(), c.end(), pred);
+    auto r   = etl::distance(it, c.end());
     c.erase(it, c.end());
     return static_cast<typename static_vector<T, Capacity>::size_type>(r);
 }
